@@ -1,32 +1,34 @@
 #!/bin/bash
 # check.sh <ID> <quick|thorough>: rebuild the program (hooks on) and the harness
-# from /repo's current working tree, run the property's monitor, clean up.
+# from the repository's current working tree, run the property's monitor, clean up.
 set -u
 ID=${1:?property id}
 TIER=${2:-quick}
-. /verif/scripts/env.sh
+. "$(dirname "${BASH_SOURCE[0]}")/env.sh"
 B=$VERIF_ROOT/.build/$ID.$$
 W=$VERIF_ROOT/.work/$ID.$$
 mkdir -p $B $W
 cleanup() { rm -rf "$B" "$W"; }
 trap cleanup EXIT
+mkwork $B/go.work
+export GOWORK=$B/go.work
 RACE=
 [ "$ID" = C18 ] && RACE=-race
-if ! (cd /repo/cmd/hranoprovod-cli && go build -tags verif -o $B/hr . ) > $B/build.log 2>&1; then
-  echo "HARNESS-ERROR property=$ID cannot build /repo with hooks on:"; cat $B/build.log; exit 3
+if ! (cd $VERIF_REPO/cmd/hranoprovod-cli && go build -tags verif -o $B/hr . ) > $B/build.log 2>&1; then
+  echo "HARNESS-ERROR property=$ID cannot build the repository with hooks on:"; cat $B/build.log; exit 3
 fi
-if ! (cd /verif/harness && go build $RACE -o $B/vcheck ./cmd/vcheck ) > $B/build.log 2>&1; then
-  # the harness links /repo's public packages: a change of their API shows up here
-  echo "HARNESS-ERROR property=$ID cannot build the harness against /repo:"; cat $B/build.log; exit 3
+if ! (cd $VERIF_ROOT/harness && go build $RACE -o $B/vcheck ./cmd/vcheck ) > $B/build.log 2>&1; then
+  # the harness links the repository's public packages: a change of their API shows up here
+  echo "HARNESS-ERROR property=$ID cannot build the harness against the repository:"; cat $B/build.log; exit 3
 fi
 ALT=
 if [ "$TIER" = thorough ] && command -v go1.26.8 >/dev/null 2>&1; then
-  if (cd /repo/cmd/hranoprovod-cli && go1.26.8 build -tags verif -o $B/hr126 . ) > $B/build126.log 2>&1; then ALT=$B/hr126; fi
+  if (cd $VERIF_REPO/cmd/hranoprovod-cli && go1.26.8 build -tags verif -o $B/hr126 . ) > $B/build126.log 2>&1; then ALT=$B/hr126; fi
 fi
 rm -rf $VERIF_ROOT/replay/$ID; mkdir -p $VERIF_ROOT/replay/$ID
 export VERIF_HR=$B/hr VERIF_HR_ALT=$ALT VERIF_WORK=$W VERIF_TIER=$TIER VERIF_SEED=${VERIF_SEED:-1}
 export GORACE="halt_on_error=0 exitcode=0 log_path=$W/race"
-cd /verif
+cd $VERIF_ROOT
 $B/vcheck run $ID --tier $TIER
 rc=$?
 exit $rc
